@@ -323,16 +323,6 @@ class Parser:
             self.__set_expected("string")
             return True
 
-        condition = (
-            ttype in ["left_cbracket", "comma"]
-            and self.__curcommand.non_deterministic_args
-        )
-        if condition:
-            self.__curcommand.reassign_arguments()
-            # rewind lexer
-            self.lexer.pos -= 1
-            return True
-
         return False
 
     def __arguments(self, ttype: str, tvalue: bytes) -> bool:
@@ -349,6 +339,19 @@ class Parser:
         :param tvalue: current token value
         :return: False if an error is encountered, True otherwise
         """
+        condition = (
+            ttype in ["left_cbracket", "comma", "right_parenthesis"]
+            and self.__curcommand.non_deterministic_args
+        )
+        if condition:
+            # All arguments have been seen, put them in their final slots.
+            self.__curcommand.reassign_arguments()
+            if not self.__curcommand.iscomplete():
+                return False
+            # rewind lexer: the token belongs to the parent command
+            self.lexer.pos -= 1
+            return self.__check_command_completion(testsemicolon=False)
+
         if ttype == "identifier":
             test = get_command_instance(tvalue.decode("ascii"), self.__curcommand)
             if test.get_type() != "test":
